@@ -527,7 +527,9 @@ def run(ctx):
     cs = [("fs+cache-one|cache|same", "fs+cache-one", "cache", [[("g", 1)], [("g", 1)]]),
           ("fs+cache-one|cache|diff", "fs+cache-one", "cache", [[("g", 1)], [("g", 2)]]),
           ("fs+cache-one|store|diff", "fs+cache-one", "store", [[("g", 1)], [("g", 2)]]),
-          ("fs+cache-all|store|same", "fs+cache-all", "store", [[("g", 1)], [("g", 1)]])]
+          ("fs+cache-all|store|same", "fs+cache-all", "store", [[("g", 1)], [("g", 1)]]),
+          # one caller only looks the call up (ignores the result) while the other reads and caches the value
+          ("fs+cache-one|store|ignore-vs-call", "fs+cache-one", "store", [[("g!ignore", 1)], [("g", 1)]])]
     c09.concurrent_part(ctx, cs, False, "two threads hitting / filling a cache that fits one entry (or all): usage == what the resident entries "
                         "account for, recency list consistent, final cache as after a sequential order", bound=2 if thorough else 1)
     ctx.count(evaluations=ctx.transitions)
